@@ -324,13 +324,14 @@ class Gen:
             return lines, res
         # helper with returns in branches
         if self.rng.random() < 0.5:
-            h = self.rng.choice(["h_for", "h_forelse"])
+            h = self.rng.choice(["h_for", "h_forelse", "h_forsame"])
             u, p, q = self.u2(1), self.u2(1), self.u2(1)
             if h not in self.helpers:
                 self.helpers.append(h)
             res = q[2]
             for k in (2, 1, 0):
-                res = f"(XIte (XEq {u[2]} (XConst {k}%Z)) (XAdd 2%N {p[2]} (XConst {k}%Z)) {res})"
+                val = p[2] if h == "h_forsame" else f"(XAdd 2%N {p[2]} (XConst {k}%Z))"
+                res = f"(XIte (XEq {u[2]} (XConst {k}%Z)) {val} {res})"
             return [ind + f"self.r0 <<= {h}({u[1]}, {p[1]}, {q[1]})"], f"(RAssign (TSig 2) {res})"
         c = self.cond()
         p, q = self.u2(1), self.u2(1)
@@ -371,6 +372,8 @@ HELPERS = {
     "h_ret": ["        def h_ret(c, p, q):", "            if c:", "                return p", "            return q"],
     "h_for": ["        def h_for(u, p, q):", "            for k in range(3):", "                if u == k:",
               "                    return p + k", "            return q"],
+    "h_forsame": ["        def h_forsame(u, p, q):", "            for k in range(3):", "                if u == k:",
+                  "                    return p", "            return q"],
     "h_forelse": ["        def h_forelse(u, p, q):", "            for k in range(3):", "                if u == k:",
                   "                    return p + k", "            else:", "                return q"],
 }
@@ -430,6 +433,8 @@ CORPUS = [
      "(RSeq (RAssign (TVar 0) (XIn 2)) (RSeq (RAssign (TVar 1) (XIn 0)) (RSeq (RAssign (TSig 2) (XAdd 2%N (XVar 0) (XIn 3))) (RIf (XVar 1) (RAssign (TSig 0) (XIn 1)) (RAssign (TSig 0) (XConst 0%Z))))))"),
     ("clocked+h_for", ["self.r0 <<= h_for(self.x, self.i, self.r0)"],
      "(RAssign (TSig 2) (XIte (XEq (XIn 2) (XConst 0%Z)) (XAdd 2%N (XIn 3) (XConst 0%Z)) (XIte (XEq (XIn 2) (XConst 1%Z)) (XAdd 2%N (XIn 3) (XConst 1%Z)) (XIte (XEq (XIn 2) (XConst 2%Z)) (XAdd 2%N (XIn 3) (XConst 2%Z)) (XSig 2)))))"),
+    ("clocked+h_forsame", ["self.r0 <<= h_forsame(self.x, self.i, self.r0)"],
+     "(RAssign (TSig 2) (XIte (XEq (XIn 2) (XConst 0%Z)) (XIn 3) (XIte (XEq (XIn 2) (XConst 1%Z)) (XIn 3) (XIte (XEq (XIn 2) (XConst 2%Z)) (XIn 3) (XSig 2)))))"),
     ("clocked+h_forelse", ["self.r0 <<= h_forelse(self.x, self.i, self.r0)"],
      "(RAssign (TSig 2) (XIte (XEq (XIn 2) (XConst 0%Z)) (XAdd 2%N (XIn 3) (XConst 0%Z)) (XIte (XEq (XIn 2) (XConst 1%Z)) (XAdd 2%N (XIn 3) (XConst 1%Z)) (XIte (XEq (XIn 2) (XConst 2%Z)) (XAdd 2%N (XIn 3) (XConst 2%Z)) (XSig 2)))))"),
     ("conc", ["self.q0 <<= self.a & self.b", "self.r0 <<= self.x + self.i", "self.w0 <<= self.i @ self.x"],
@@ -447,7 +452,7 @@ def run(ck: common.Check, replay=None):
             lines = ["            " + l for l in body]
             mode, _, hs = mode.partition("+")
             items.append((f"corpus{k:02d}", mode, to_source(mode, lines, [hs] if hs else []), ref))
-        n = 120 if ck.tier == "quick" else 1500
+        n = 70 if ck.tier == "quick" else 1500
         for k in range(n):
             mode = ck.rng.choice(["clocked"] * 6 + ["comb"] * 2 + ["conc"] * 2)
             g = Gen(ck.rng, mode)
